@@ -57,7 +57,12 @@ PGMV_DEF_MINMAX(uint32_t)
 #ifdef PGMV_CBMC
 size_t pgmv_nondet_size_t(void);
 int64_t pgmv_nondet_int64_t(void);
-static inline size_t pgmv_f2i_size_t(double x) { if (x >= 0.0 && x < 18446744073709551616.0) return (size_t)x; return pgmv_nondet_size_t(); }
+#ifdef PGMV_F2I_STRICT
+/* units that prove the absence of undefined conversions: out of range is a failed obligation */
+static inline size_t pgmv_f2i_size_t(double x) { __CPROVER_assert(x > -1.0 && x < 18446744073709551616.0, "float -> size_t conversion is in range (no undefined behaviour)"); return (size_t)x; }
+#else
+static inline size_t pgmv_f2i_size_t(double x) { if (x > -1.0 && x < 18446744073709551616.0) return (size_t)x; return pgmv_nondet_size_t(); }
+#endif
 static inline int64_t pgmv_f2i_int64_t(double x) { if (x > -9223372036854775808.0 && x < 9223372036854775808.0) return (int64_t)x; return pgmv_nondet_int64_t(); }
 #else
 static inline size_t pgmv_f2i_size_t(double x) { return (size_t)x; }
